@@ -6,6 +6,12 @@
  *
  *   cpuemu <maxleaf> <leaf1.ecx> <leaf1.edx> <leaf7.0.ebx> <leaf7.n.ebx> <entry_ecx>
  *     leaf1.ecx / leaf1.edx: "host" or a hex value; entry_ecx: value left in ECX before each probe call
+ *   cpuemu sched <k>
+ *     two threads, host CPU model: thread A runs skinny128_ctr_init / parallel_ecb_init for the first time in the
+ *     process; when A is about to execute its k-th CPUID instruction, thread B runs both init functions to
+ *     completion, then A resumes (a schedule at CPUID granularity: hidden state in the probes - a cache, a
+ *     half-written flag - shows as an answer that differs between the threads or from the CPU's features).
+ *     Output: "sched=1 k=<k> cpuids=<n> A=<be>/<psize> B=<be>/<psize>"
  * Output: one line  "emu=1 xcr0=<hex> has128=<0|1> has256=<0|1> ctr128=<generic|vec128|vec256> psize128=<n>"
  * or "emu=0" when the facility is unavailable.
  */
@@ -19,6 +25,7 @@
 #include <ucontext.h>
 #include <sys/syscall.h>
 #include <asm/prctl.h>
+#include <pthread.h>
 #include "skinny128-cipher.h"
 #include "skinny128-parallel.h"
 #include "skinny128-ctr-internal.h"
@@ -34,6 +41,24 @@ static void real_cpuid(uint32_t leaf, uint32_t sub, uint32_t r[4])
     __asm__ __volatile__ ("cpuid" : "=a"(r[0]), "=b"(r[1]), "=c"(r[2]), "=d"(r[3]) : "0"(leaf), "2"(sub));
 }
 
+static volatile int sched_k = -1, sched_count = 0, sched_go = 0, sched_done = 0;
+static char resB[64];
+static const char *be_of(const Skinny128CTR_t *c)
+{
+    return c->vtable == &_skinny128_ctr_vec256 ? "vec256" : c->vtable == &_skinny128_ctr_vec128 ? "vec128" : "generic";
+}
+static void *thread_b(void *arg)
+{
+    Skinny128CTR_t ctr; Skinny128ParallelECB_t par;
+    (void)arg;
+    while (!__atomic_load_n(&sched_go, __ATOMIC_ACQUIRE)) ;
+    memset(&ctr, 0, sizeof(ctr)); memset(&par, 0, sizeof(par));
+    skinny128_ctr_init(&ctr); skinny128_parallel_ecb_init(&par);
+    snprintf(resB, sizeof(resB), "%s/%u", be_of(&ctr), (unsigned)par.parallel_size);
+    __atomic_store_n(&sched_done, 1, __ATOMIC_RELEASE);
+    return 0;
+}
+
 static void on_fault(int sig, siginfo_t *info, void *vctx)
 {
     ucontext_t *uc = vctx;
@@ -42,6 +67,13 @@ static void on_fault(int sig, siginfo_t *info, void *vctx)
     uint32_t r[4], leaf, sub;
     (void)info;
     if (ip[0] != 0x0F || ip[1] != 0xA2) { signal(sig, SIG_DFL); return; }
+    if (sched_k >= 0) {
+        if (sched_count == sched_k && !sched_go) {          /* let the other thread run its first initialisation now */
+            __atomic_store_n(&sched_go, 1, __ATOMIC_RELEASE);
+            while (!__atomic_load_n(&sched_done, __ATOMIC_ACQUIRE)) ;
+        }
+        ++sched_count;
+    }
     leaf = (uint32_t)g[REG_RAX]; sub = (uint32_t)g[REG_RCX];
     syscall(SYS_arch_prctl, ARCH_SET_CPUID, 1UL);
     real_cpuid(leaf, sub, r);
@@ -73,6 +105,26 @@ int main(int argc, char **argv)
         real_cpuid(0, 0, r0); real_cpuid(1, 0, r); real_cpuid(7, 0, r7);
         __asm__ __volatile__ ("xgetbv" : "=a"(lo), "=d"(hi) : "c"(0));
         printf("maxleaf=%u l1ecx=%x l1edx=%x l7ebx=%x xcr0=%x\n", r0[0], r[2], r[3], r7[1], lo);
+        return 0;
+    }
+    if (argc == 3 && !strcmp(argv[1], "sched")) {
+        pthread_t tb; Skinny128CTR_t c2; Skinny128ParallelECB_t p2;
+        uint32_t r0[4], r1[4];
+        real_cpuid(0, 0, r0); real_cpuid(1, 0, r1);
+        m_maxleaf = r0[0]; host_l1ecx = host_l1edx = 1;
+        { uint32_t r7[4]; real_cpuid(7, 0, r7); m_l7ebx0 = r7[1]; real_cpuid(7, 1, r7); m_l7ebxn = r7[1]; }
+        memset(&sa, 0, sizeof(sa));
+        sa.sa_sigaction = on_fault; sa.sa_flags = SA_SIGINFO | SA_NODEFER; sigemptyset(&sa.sa_mask);
+        if (sigaction(SIGSEGV, &sa, 0) != 0) { printf("sched=0\n"); return 0; }
+        pthread_create(&tb, 0, thread_b, 0);                    /* B executes CPUID natively */
+        if (syscall(SYS_arch_prctl, ARCH_SET_CPUID, 0UL) != 0) { printf("sched=0\n"); return 0; }
+        sched_k = atoi(argv[2]);
+        memset(&c2, 0, sizeof(c2)); memset(&p2, 0, sizeof(p2));
+        skinny128_ctr_init(&c2); skinny128_parallel_ecb_init(&p2);
+        syscall(SYS_arch_prctl, ARCH_SET_CPUID, 1UL);
+        __atomic_store_n(&sched_go, 1, __ATOMIC_RELEASE);       /* A made fewer than k CPUID calls: B runs afterwards */
+        pthread_join(tb, 0);
+        printf("sched=1 k=%d cpuids=%d A=%s/%u B=%s\n", sched_k, sched_count, be_of(&c2), (unsigned)p2.parallel_size, resB);
         return 0;
     }
     if (argc < 7) return 2;
